@@ -244,6 +244,8 @@ def gen_ace(rng, platform: str, version: str = "", *, small=None, allow_group=Tr
         pnum = rng.randrange(256)
     pnames = [n for n, v in pin.items() if v == pnum]
     ptext = rng.choice(pnames) if pnames and rng.random() < 0.7 else str(pnum)
+    if ptext.isdigit() and rng.random() < 0.08:
+        ptext = ptext.zfill(rng.choice([2, 3]))  # decimal spelling with leading zeros (006, 017)
     akw = dict(allow_group=allow_group, allow_nc=allow_nc, max_k=max_k, foreign=foreign, small=small)
     src = gen_addr(rng, platform, **akw)
     dst = gen_addr(rng, platform, **akw)
@@ -270,7 +272,8 @@ def gen_ace(rng, platform: str, version: str = "", *, small=None, allow_group=Tr
     if extra_opts and flags_ok and rng.random() < 0.12:
         # keyword/value options: their order is part of the meaning
         extra = rng.choice([["dscp", rng.choice(["af11", "ef", "cs1", "af43"])], ["precedence", rng.choice(["critical", "internet"])],
-                            ["fragments"], ["time-range", rng.choice(["tr1", "work-hours"])], ["tos", "max-reliability"]])
+                            ["fragments"], ["time-range", rng.choice(["tr1", "work-hours", "daytime", "login", "time", "who"])],
+                            ["tos", "max-reliability"]])
         if pnum == 6 and rng.random() < 0.3:
             extra = ["established"]
         flags = flags + extra if rng.random() < 0.7 else extra + flags
@@ -329,7 +332,7 @@ def gen_remark(rng, *, seq=0, heading: str | None = None, uniq: str = "") -> dic
     return {"text": line, "sem": {"kind": "remark", "seq": seq, "text": " ".join(text.split())}}
 
 
-ACL_NAMES = ["A", "ACL1", "acl-in", "Edge_OUT", "110", "V.4", "x", "NAME"]
+ACL_NAMES = ["A", "ACL1", "acl-in", "Edge_OUT", "110", "V.4", "x", "NAME", "extended-dmz", "standard-mgmt", "ACL-IN(1", "ACL[EDGE"]
 
 
 def acl_header(platform: str, name: str, acl_type: str = "extended") -> str:
